@@ -40,7 +40,8 @@ EXPLANATION = (
     'the dispatch test skips, and the transformer takes no fixed offset into the still indented line; R8 in the @ arm of the cmake scanner the path '
     'conditions imply that the name slice is not empty (difference bounds over `name +/- constant`); R9 a token of a directive line is indexed only '
     'under a length guard or IndexError handler; R10 after a placeholder is replaced the cmake scanner resumes behind the inserted value (symbolic '
-    'effect of the loop-body row). A dispatch test written as a regex call is decided from the language of its constant pattern (match / anchored search with a leading blank-star: tolerant; unanchored search: accepts a directive in the middle of a line). NOT decided: the header forms when prefix / comment / epilogue come from a record returned by a helper (NamedTuple of per-format syntax); tokens of a #cmakedefine value that are set names being replaced by str(value) (legacy behaviour, kept '
+    'effect of the loop-body row) and a row that replaces nothing never moves the scan position behind an `@` it only located; R4b also: the text opens of '
+    'do_conf_file (single-purpose I/O helpers inlined) agree on the encoding. A dispatch test written as a regex call is decided from the language of its constant pattern (match / anchored search with a leading blank-star: tolerant; unanchored search: accepts a directive in the middle of a line). NOT decided: the header forms when prefix / comment / epilogue come from a record returned by a helper (NamedTuple of per-format syntax); tokens of a #cmakedefine value that are set names being replaced by str(value) (legacy behaviour, kept '
     'as is by R3); `#cmakedefineX` / `#mesondefineX` accepted by the prefix test of the dispatchers; backslash escapes in the cmake formats; the cmake scanner (index arithmetic over run-time '
     'strings); how many backslashes of a run the regex engine consumes for a concrete text (leftmost/greedy matching); whether a '
     'result that depends on the terminator/indentation reproduces it exactly (only independence is refuted); indentation of '
@@ -1791,9 +1792,70 @@ def _open_calls(fn: ast.AST) -> T.List[T.Tuple[ast.With, ast.Call, str]]:
     return out
 
 
+def _inline_io_helpers(mod: Module, fn: ast.FunctionDef) -> ast.FunctionDef:
+    """Single-purpose I/O helpers inlined (inverse of "extract function"): a top-level `x = H(a, ..)` / `H(a, ..)` where H is a module-level function that
+    opens a file and whose every `return` is in tail position is replaced by H's body, parameters bound to the arguments and `return E` read as `x = E`."""
+    import copy
+
+    def tail_ok(stmts: T.List[ast.stmt]) -> bool:
+        """every Return in stmts ends the function: it is the last statement of its block and that block is last in its parent"""
+        for i, st in enumerate(stmts):
+            last = i == len(stmts) - 1
+            if isinstance(st, ast.Return):
+                if not last:
+                    return False
+                continue
+            has_ret = any(isinstance(n, ast.Return) for n in ast.walk(st) if not isinstance(n, (ast.FunctionDef, ast.Lambda)))
+            if not has_ret:
+                continue
+            if not last:
+                return False
+            if isinstance(st, (ast.With, ast.If)):
+                if not tail_ok(st.body) or not tail_ok(getattr(st, 'orelse', []) or []):
+                    return False
+            elif isinstance(st, ast.Try):
+                if st.finalbody or not tail_ok(st.body) or not tail_ok(st.orelse) or not all(tail_ok(h.body) for h in st.handlers):
+                    return False
+            else:
+                return False
+        return True
+
+    out = copy.deepcopy(fn)
+    new_body: T.List[ast.stmt] = []
+    for st in out.body:
+        call = st.value if isinstance(st, (ast.Assign, ast.Expr)) and isinstance(st.value, ast.Call) else None
+        tgt = st.targets[0] if isinstance(st, ast.Assign) and len(st.targets) == 1 else None
+        if call is None or not isinstance(call.func, ast.Name) or not mod.has_func(call.func.id) or '.' in call.func.id or (isinstance(st, ast.Assign) and tgt is None):
+            new_body.append(st)
+            continue
+        h = mod.func(call.func.id)
+        opens_file = any(isinstance(n, ast.Call) and attr_chain(n.func) == 'open' for n in ast.walk(h))
+        bound = _bind_call(call, h)
+        names = [a.arg for a in h.args.posonlyargs + h.args.args]
+        if not opens_file or bound is None or set(bound) != set(names) or h.args.vararg or h.args.kwarg or h.decorator_list or not tail_ok(h.body) \
+                or any(isinstance(n, (ast.Yield, ast.YieldFrom)) for n in ast.walk(h)):
+            new_body.append(st)
+            continue
+        body = copy.deepcopy([b for b in h.body if not (isinstance(b, ast.Expr) and isinstance(b.value, ast.Constant))])
+        pre = [ast.copy_location(ast.Assign(targets=[ast.Name(id=p_, ctx=ast.Store())], value=a_), st) for p_, a_ in bound.items()
+               if not (isinstance(a_, ast.Name) and a_.id == p_)]
+
+        class R(ast.NodeTransformer):
+            def visit_FunctionDef(self, n: ast.FunctionDef) -> ast.AST:
+                return n
+
+            def visit_Return(self, n: ast.Return) -> ast.AST:
+                if tgt is not None and n.value is not None:
+                    return ast.copy_location(ast.Assign(targets=[copy.deepcopy(tgt)], value=n.value), n)
+                return ast.copy_location(ast.Expr(value=n.value) if n.value is not None else ast.Pass(), n)
+        new_body.extend(pre + [R().visit(b) for b in body])
+    out.body = [ast.fix_missing_locations(b) for b in new_body]
+    return out
+
+
 def r4b(ctx: RuleCtx) -> None:
     mod = _mod(ctx)
-    fn = mod.func('do_conf_file')
+    fn = _inline_io_helpers(mod, mod.func('do_conf_file'))
     fl = Flow(fn)
     opens = _open_calls(fn)
     reads, writes = [], []
@@ -1821,6 +1883,8 @@ def r4b(ctx: RuleCtx) -> None:
         m = 'r' if mode is None else const_of(mode)
         if not isinstance(m, str):
             raise Undecided(f'do_conf_file: open mode is not a string constant: {short(c)}')
+        if 'b' in m:
+            continue        # a binary-mode open (e.g. the comparison in replace_if_different) never translates line terminators and carries no template text here
         (writes if any(x in m for x in 'wax+') else reads).append((w, c, f, m))
     ctx.floor('do_conf_file: open() for reading / writing', min(len(reads), len(writes)), 1)
     for w, c, f, m in reads + writes:
@@ -1831,6 +1895,23 @@ def r4b(ctx: RuleCtx) -> None:
                     f'`{short(c)}` opens the file with newline={nl!r}, not "": Python translates line terminators ' +
                     ('on input (\\r\\n and \\r become \\n)' if (w, c, f, m) in reads else 'on output (\\n becomes os.linesep)') +
                     ', so line endings of the template are not copied', c)
+    # the template is decoded and the result encoded with the same codec: the text opens agree on `encoding` (sibling agreement; a constant or
+    # default on one side re-encodes every non-ASCII byte of a template given in another encoding)
+    encs = {}
+    for w, c, f, m in reads + writes:
+        e_ = open_arg(c, 'encoding')
+        encs[norm(_single_def(fn, e_)) if e_ is not None else '<locale default>'] = c
+    if len(encs) == 1:
+        ctx.ok(f'do_conf_file: template and output are opened with the same encoding ({next(iter(encs))})')
+    else:
+        held = {a.arg for a in fn.args.args}
+        odd = [(k_, c_) for k_, c_ in encs.items() if not (names_in(_parse(k_)) & held if k_ != '<locale default>' else False)]
+        if odd and len(odd) < len(encs):
+            for k_, c_ in odd:
+                ctx.violation(mod, 'do_conf_file', c_, f'`{short(c_)}` uses the encoding {k_} while the other side of the copy uses '
+                              f'{sorted(x for x in encs if x != k_)}: template text outside placeholders is re-encoded instead of copied', c_)
+        else:
+            raise Undecided(f'do_conf_file: the text opens use different encodings {sorted(encs)}; cannot tell which one is the caller\'s')
     # template lines: f.readlines() of the src file reach the `data` argument of do_conf_str
     calls = [c for c in ast.walk(fn) if isinstance(c, ast.Call) and isinstance(c.func, ast.Name) and c.func.id == 'do_conf_str']
     if len(calls) != 1:
@@ -1841,6 +1922,8 @@ def r4b(ctx: RuleCtx) -> None:
     rd = [(w, c, f, m) for (w, c, f, m) in reads if f'call:{f}.readlines' in o]
     allowed_r = {f'call:{f}.readlines' for _, _, f, _ in rd} | {'call:open', 'const'} | {f'param:{a.arg}' for a in fn.args.args} | \
         {x for x in o if x.startswith('name:') and mod.has_assign(x[5:])}          # module-level constants (e.g. the newline mode)
+    for _w, c_, _f, _m in reads + writes:
+        allowed_r |= fl.origins(c_.args[0]) if c_.args else set()                  # how a file *name* was obtained says nothing about the lines read
     ok = len(rd) == 1 and o <= allowed_r and f'param:{src_p}' in fl.origins(rd[0][1].args[0])
     dv = _single_def(fn, data) if data is not None else None
     lossy = isinstance(dv, ast.Call) and isinstance(dv.func, ast.Attribute) and (
@@ -1873,7 +1956,11 @@ def r4b(ctx: RuleCtx) -> None:
                     f'the result lines are joined with {sep!r}: bytes that are not in the template are inserted between the lines', wc)
         arg = arg.args[0]
     o2 = fl.origins(arg)
-    ok = 'call:do_conf_str' in o2 and not any(x.startswith('call:') and x not in ('call:do_conf_str', f'call:{rd[0][2]}.readlines' if rd else '', 'call:open') for x in o2)
+    name_o: T.Set[str] = set()
+    for _w, c_, _f, _m in reads + writes:
+        name_o |= fl.origins(c_.args[0]) if c_.args else set()      # how a file name was obtained (temp-name helper, context manager) is not text
+    ok = 'call:do_conf_str' in o2 and not any(x.startswith('call:') and x not in name_o and
+                                              x not in ('call:do_conf_str', f'call:{rd[0][2]}.readlines' if rd else '', 'call:open') for x in o2)
     if not ok:
         raise Undecided(f'do_conf_file: the text written has origins {sorted(o2)}; cannot tell whether it is the unmodified list returned by do_conf_str')
     ctx.ok('do_conf_file: the lines written are the result of do_conf_str, unmodified')
@@ -2672,6 +2759,7 @@ def r10(ctx: RuleCtx) -> None:
     mod.func(host)
     family = _cmake_family(mod)
     n = 0
+    scan_sites: T.List[T.Tuple[str, ast.FunctionDef, ast.While, str, str]] = []
     for q, f in mod.funcs().items():
         if q not in family:
             continue
@@ -2697,6 +2785,8 @@ def r10(ctx: RuleCtx) -> None:
                                                and norm(terms[0].value) == tp and terms[0].slice.upper is not None):
                         raise Undecided(f'{q}: the scanned text is rebuilt as `{short(ln)}`, not as text[:i] + value + text[j:]')
                     pos = norm(terms[0].slice.upper)
+                    if (q, f, w, tp, pos) not in scan_sites:
+                        scan_sites.append((q, f, w, tp, pos))
                     val = norm(terms[1])
                     idx = r.env.get(pos)
                     n += 1
@@ -2716,6 +2806,30 @@ def r10(ctx: RuleCtx) -> None:
                     else:
                         raise Undecided(f'{q}: scan position after a replacement is `{norm(idx)}`')
     ctx.floor('cmake scanner: rows that replace a placeholder', n, 1)
+    # rows that replace nothing: the scan position must not be moved past a character that was located as an `@` - every `@` has to be
+    # examined as the possible start of a placeholder (`a@b.org, @VAR@`: the `@` that closes the rejected span opens nothing, but the scan
+    # must continue *at* it or before it, never behind it)
+    for q, f, w, tp, pos in scan_sites:
+        tab = _table(mod, f, body=w.body, handlers=False, unroll=1, name=q + ':scan')
+        for r in T.cast(T.List[shape.XRow], tab.rows):
+            if r.env.get(tp) is not None or r.outcome[0] not in ('fall', 'continue'):
+                continue
+            idx = r.env.get(pos)
+            if idx is None:
+                continue
+            li = _lin(idx)
+            if li is not None and li[0] == pos and li[1] == 1:
+                ctx.ok(f'{q}: a row that replaces nothing advances the scan by one character [{r.path.describe()[:70]}]')
+                continue
+            base_e = idx.left if isinstance(idx, ast.BinOp) and isinstance(idx.op, ast.Add) and isinstance(idx.right, ast.Constant) and idx.right.value >= 1 else None
+            if isinstance(base_e, ast.Call) and isinstance(base_e.func, ast.Attribute) and base_e.func.attr in ('find', 'index') and norm(base_e.func.value) == tp \
+                    and base_e.args and isinstance(base_e.args[0], ast.Constant) and base_e.args[0].value == '@':
+                ctx.violation(mod, _family_name(q), f'scan position moved behind a located @: {norm(idx)}',
+                              f'on the path [{r.path.describe()[:110]}] nothing is replaced and the scan position becomes `{norm(idx)}`, i.e. one behind an `@` that was only '
+                              f'located, not examined: that `@` can never open a placeholder (`dev@example.org, @VAR@` leaves `@VAR@` unreplaced and, when unset, unreported)',
+                              r.path.events[-1].node if r.path.events else w)
+            else:
+                ctx.note(f'{q}: a row that replaces nothing sets the scan position to `{norm(idx)}` (not judged)')
 
 
 RULES = [
